@@ -701,6 +701,12 @@ pub enum Cand {
     G1XPlus1 { k: String },
     G1WrongB { x: String, b: u64 },
     G1Junk { x: String, y: String },
+    /// y chosen for the stored limbs of y^2 (a square that wraps past 2^256, needs the final
+    /// subtraction, ...); x = cbrt(y^2 - 5 - delta): a point of y^2 = x^3 + 5 + delta, delta != 0
+    G1AimedY { y: String, delta: i32 },
+    /// y^2 and x^3 + 5 differ by a limb-structured amount in their STORED (Montgomery) form: one
+    /// bit, the same bit in two limbs, +-1, one whole limb
+    G1StoredNearMiss { x: String, variant: u8, bit: u8, li: u8, lj: u8 },
 }
 
 impl Cand {
@@ -726,6 +732,8 @@ impl Cand {
             Cand::G1XPlus1 { .. } => "g1_x_plus_1",
             Cand::G1WrongB { .. } => "g1_wrong_b",
             Cand::G1Junk { .. } => "g1_junk",
+            Cand::G1AimedY { .. } => "g1_aimed_y_near_miss",
+            Cand::G1StoredNearMiss { .. } => "g1_stored_near_miss",
         }
     }
 }
@@ -872,6 +880,41 @@ fn build_g1(c: &Cand) -> Option<((Q, Q), bool)> {
         Cand::G1Junk { x, y } => {
             let x = Q::new(from_be(&unhex(x)));
             let y = Q::new(from_be(&unhex(y)));
+            let ok = model::on_curve(&x, &y);
+            Some(((x, y), ok))
+        }
+        Cand::G1AimedY { y, delta } => {
+            let q = model::q();
+            let y = Q::new(from_be(&unhex(y)));
+            let d = if *delta >= 0 { Q::from_u64(*delta as u64) } else { Q::from_u64((-*delta) as u64).neg() };
+            let c = y.sqr().sub(&Q::from_u64(5)).sub(&d);
+            // q = 4 mod 9: the cube root of a cubic residue c is c^((2q+1)/9)
+            let e = ((q * 2u32) + 1u32) / 9u32;
+            let x = Q(c.0.modpow(&e, q));
+            if x.sqr().mul(&x) != c {
+                return None;
+            }
+            let ok = model::on_curve(&x, &y);
+            Some(((x, y), ok))
+        }
+        Cand::G1StoredNearMiss { x, variant, bit, li, lj } => {
+            let q = model::q();
+            let rr = BigUint::one() << 256;
+            let rinv = model::minv(&(&rr % q), q).unwrap();
+            let x = Q::new(from_be(&unhex(x)));
+            let rhs = x.sqr().mul(&x).add(&Q::from_u64(5));
+            let m = (&rhs.0 * &rr) % q;
+            let (i, j) = ((*li % 4) as u32, (*lj % 4) as u32);
+            let b = (*bit % 64) as u32;
+            let m2 = match variant % 5 {
+                0 => &m ^ (BigUint::one() << (64 * i + b)),
+                1 => &m ^ (BigUint::one() << (64 * i + b)) ^ (BigUint::one() << (64 * ((i + 1 + j % 3) % 4) + b)),
+                2 => &m + 1u32,
+                3 => (&m + q - 1u32) % q,
+                _ => &m ^ (BigUint::from(u64::MAX) << (64 * i)),
+            } % q;
+            let w = (&m2 * &rinv) % q;
+            let y = Q(model::msqrt(&w, q)?);
             let ok = model::on_curve(&x, &y);
             Some(((x, y), ok))
         }
@@ -1041,7 +1084,35 @@ pub fn generate9(seed: u64, index: u64) -> Wire9Spec {
             12 => Cand::G1YPlus1 { k: hk(&mut pr) },
             13 => Cand::G1XPlus1 { k: hk(&mut pr) },
             14 | 15 => Cand::G1WrongB { x: hex(&pr.bytes(32)), b: *pr.pick(&[0u64, 1, 2, 3, 4, 6, 7, 10]) },
-            16 => Cand::G1Junk { x: hex(&pr.bytes(32)), y: hex(&pr.bytes(32)) },
+            16 | 17 => match pr.below(3) {
+                0 => Cand::G1Junk { x: hex(&pr.bytes(32)), y: hex(&pr.bytes(32)) },
+                1 => {
+                    // y whose square has chosen stored limbs W: y = sqrt(W * R^-1)
+                    let q = model::q();
+                    let rr = BigUint::one() << 256;
+                    let rinv = model::minv(&(&rr % q), q).unwrap();
+                    let mut yv = BigUint::from(2u32);
+                    for _ in 0..16 {
+                        let wl = match pr.below(4) {
+                            0 | 1 => ((&rr - q) + crate::world_fld::limb_sparse(&mut pr, 3)) % q,
+                            2 => crate::world_fld::limb_sparse(&mut pr, 3) % q,
+                            _ => crate::world_fld::limb_patterns(&mut pr, q) % q,
+                        };
+                        if let Some(r) = model::msqrt(&((&wl * &rinv) % q), q) {
+                            yv = r;
+                            break;
+                        }
+                    }
+                    Cand::G1AimedY { y: hex(&be32(&yv)), delta: *pr.pick(&[1i32, -1, 2, -2, 3, -5]) }
+                }
+                _ => Cand::G1StoredNearMiss {
+                    x: hex(&be32(&BigUint::from(1 + pr.below(1 << 20)))),
+                    variant: pr.below(5) as u8,
+                    bit: pr.below(64) as u8,
+                    li: pr.below(4) as u8,
+                    lj: pr.below(4) as u8,
+                },
+            },
             _ => Cand::G2Small { k: hk(&mut pr), j13: pr.below(13) as u32, j1621: 0 },
         };
         ops.push(c);
@@ -1058,6 +1129,11 @@ pub struct Wire10Spec {
     pub k: String,
     #[serde(default)]
     pub from_x: Option<FromX>,
+    /// before each encoding, make unrelated library calls on field elements that share their
+    /// STORED limbs with the representative's z coordinates (Fr and Fq inversions, products):
+    /// the encodings must not depend on what the library was asked before
+    #[serde(default)]
+    pub interfere: bool,
     pub budget: u64,
     /// representatives from which the value is sent
     pub ops: Vec<Repr>,
@@ -1075,7 +1151,29 @@ fn model_affine<G: LibG, F: RF>(p: &G) -> Option<(F, F)> {
     Some((x.mul(&zi2), y.mul(&zi2.mul(&zi))))
 }
 
-fn round_trip<G: LibG, F: RF>(k: &BigUint, from_x: &Option<FromX>, reprs: &[Repr], budget: u64, prop: &str, res: &mut RunResult, dg: &mut Digest) {
+/// unrelated calls on Fr / Fq elements that have the given stored limbs (results discarded)
+fn interference(limbs: &[[u64; 4]]) {
+    let rr = BigUint::one() << 256;
+    for l in limbs {
+        let lv = crate::world_fld::limbs_to_big(l);
+        for (is_r, p) in [(true, model::r()), (false, model::q())] {
+            let rinv = model::minv(&(&rr % p), p).unwrap();
+            let v = ((&lv % p) * rinv) % p;
+            if is_r {
+                if let Some(e) = sm9_core::Fr::from_slice(&be32(&v)) {
+                    let _ = e.inverse();
+                    let _ = e * e;
+                }
+            } else if let Some(e) = Fq::from_slice(&be32(&v)) {
+                let _ = e.inverse();
+                let _ = e * e;
+                let _ = e.sqrt();
+            }
+        }
+    }
+}
+
+fn round_trip<G: LibG, F: RF>(k: &BigUint, from_x: &Option<FromX>, interfere: bool, reprs: &[Repr], budget: u64, prop: &str, res: &mut RunResult, dg: &mut Digest) {
     let mut first: Option<((F, F), Vec<Vec<u8>>)> = None;
     for (step, repr) in reprs.iter().enumerate() {
         res.steps += 1;
@@ -1101,6 +1199,9 @@ fn round_trip<G: LibG, F: RF>(k: &BigUint, from_x: &Option<FromX>, reprs: &[Repr
             }
             parity = if mp.1.is_odd() { "odd" } else { "even" };
             let refs: Vec<Vec<u8>> = FMTS.iter().map(|f| ref_encode(&mp, *f)).collect();
+            if interfere {
+                interference(&p.z_limbs());
+            }
             let mut encs = Vec::new();
             for (fi, fmt) in FMTS.iter().enumerate() {
                 let e = p.enc(*fmt);
@@ -1182,8 +1283,8 @@ pub fn exec10(spec: &Wire10Spec, prop: &str) -> RunResult {
     let k = from_be(&unhex(&spec.k)) % r;
     let k = if k.is_zero() { BigUint::one() } else { k };
     match spec.g {
-        Grp::G1 => round_trip::<G1, Q>(&k, &spec.from_x, &spec.ops, spec.budget, prop, &mut res, &mut dg),
-        Grp::G2 => round_trip::<G2, Q2>(&k, &None, &spec.ops, spec.budget, prop, &mut res, &mut dg),
+        Grp::G1 => round_trip::<G1, Q>(&k, &spec.from_x, spec.interfere, &spec.ops, spec.budget, prop, &mut res, &mut dg),
+        Grp::G2 => round_trip::<G2, Q2>(&k, &None, spec.interfere, &spec.ops, spec.budget, prop, &mut res, &mut dg),
     }
     res.fingerprint = dg.0;
     res
@@ -1205,5 +1306,6 @@ pub fn generate10(seed: u64, index: u64) -> Wire10Spec {
     }
     ops.push(Repr::AffineRt);
     let from_x = if g == Grp::G1 && pr.chance(1, 4) { Some(boundary_x(&mut pr)) } else { None };
-    Wire10Spec { g, k: hex(&be32(&k)), from_x, budget: DEFAULT_BUDGET, ops }
+    let interfere = pr.chance(1, 3);
+    Wire10Spec { g, k: hex(&be32(&k)), from_x, interfere, budget: DEFAULT_BUDGET, ops }
 }
